@@ -112,70 +112,9 @@ def _prefix_is_code(fnode):
 
 
 def r2_key_only_for_call_next(ctx):
-    rw = A.rewriter(ctx.repo)
-    vc = rw.methods.get("visit_Call")
-    vn = rw.methods.get("visit_Name")
-    ctx.require(vc and vn, "the rewriter lacks visit_Call / visit_Name")
-    ctx.touch(vc, vn)
-    # the flag: <flag> = node.func.id == self.call_next_sym
-    flags = {}
-    for st in all_stmts(vc.node):
-        if isinstance(st, ast.Assign) and isinstance(st.value, ast.Compare) and len(st.value.ops) == 1 and isinstance(st.value.ops[0], ast.Eq):
-            sides = [st.value.left, st.value.comparators[0]]
-            if any(is_self_attr(s, "call_next_sym") for s in sides) and any(dotted(s) and dotted(s).endswith("func.id") for s in sides):
-                for t in st.targets:
-                    if isinstance(t, ast.Name):
-                        flags[t.id] = st
-    roles = A.rewriter_roles(ctx.repo)
-    ctx.require("code" in roles, "the re-compiler no longer binds the method's own code under a name handed to the rewriter")
-    code_attr = roles["code"][0]
+    from .rewriter import law_code_key
 
-    def mentions_code(a):
-        return any(is_self_attr(x, code_attr) for x in ast.walk(a))
-
-    inserts = []
-    for st in all_stmts(vc.node):
-        if isinstance(st, ast.If):
-            for b in st.body:
-                for c in ast.walk(b):
-                    if isinstance(c, ast.Call) and isinstance(c.func, ast.Attribute) and c.func.attr == "insert" and any(mentions_code(a) for a in c.args):
-                        inserts.append((st, c))
-    uncond = [
-        c
-        for st in all_stmts(vc.node)
-        if isinstance(st, ast.Expr)
-        for c in [st.value]
-        if isinstance(c, ast.Call) and isinstance(c.func, ast.Attribute) and c.func.attr == "insert" and any(mentions_code(a) for a in c.args)
-        and not any(c is ic for _, ic in inserts)
-    ]
-    ok = bool(inserts) and not uncond
-    for st, c in inserts:
-        t = st.test
-        good = isinstance(t, ast.Name) and t.id in flags and not st.orelse
-        pos0 = len(c.args) == 2 and isinstance(c.args[0], ast.Constant) and c.args[0].value == 0
-        ok = ok and good and pos0
-    ctx.ob(
-        f"{vc.key}:code-key-iff-call_next",
-        vc.loc(inserts[0][1]) if inserts else vc.loc(),
-        "the rewriter prepends the method's code key to the lookup exactly when the callee is the call_next symbol",
-        ok,
-        "the code key is not prepended exactly for call_next: recurse would skip ranks, or call_next would restart from the top (infinite recursion)",
-    )
-    # a bare reference to call_next is rejected at build time
-    raised = False
-    for st in ast.walk(vn.node):
-        if isinstance(st, ast.If):
-            tests = [st]
-            for branch in tests:
-                if any(is_self_attr(n, "call_next_sym") for n in ast.walk(branch.test)) and any(isinstance(x, ast.Raise) for b in branch.body for x in ast.walk(b)):
-                    raised = True
-    ctx.ob(
-        f"{vn.key}:bare-call_next-rejected",
-        vn.loc(),
-        "a reference to call_next that is not a direct call is rejected when the method is built",
-        raised,
-        "a bare reference to call_next is silently rewritten: the alias then starts a fresh dispatch instead of continuing below the current method",
-    )
+    law_code_key(ctx)
 
 
 def errors_consulted(ctx):
@@ -359,7 +298,14 @@ def r3(ctx):
     errors_consulted(ctx)
 
 
+def r7_call_next_passes_arguments_intact(ctx):
+    from .rewriter import law_each_argument_once
+
+    law_each_argument_once(ctx)
+
+
 RULES = [
+    ("C07.R7", "P1", r7_call_next_passes_arguments_intact, "call_next invokes the next method with exactly the arguments written"),
     ("C07.R1", "P1", r1_one_code_object, "one code object on both sides"),
     ("C07.R2", "P1", r2_key_only_for_call_next, "code key only for call_next"),
     ("C07.R3", "P1", r3, "every table written for continuations is read for continuations"),
